@@ -149,6 +149,14 @@ func (e *kvElection) checkKeyAndReelect(ctx context.Context) {
 // handleWatchEvent processes watch events and triggers re-election when the key is deleted
 // or becomes empty. It also updates the leader ID when a new leader is detected.
 func (e *kvElection) handleWatchEvent(entry Entry) {
+	// A leader does not compete for its own key: if its record was deleted or
+	// emptied by an outside party, the next heartbeat fails, the instance demotes
+	// (with OnDemote) and re-acquires as a follower. Starting an acquisition round
+	// here would promote the instance a second time within the same term.
+	if (entry == nil || len(entry.Value()) == 0) && e.IsLeader() {
+		return
+	}
+
 	if entry == nil {
 		log := e.getLogger()
 		log.Debug("watch_event_key_deleted",
